@@ -648,17 +648,273 @@ theorem decSig_eq_some_iff (b : Bytes) (r s : Nat) :
     exact decSig_encSig r s h
 
 /-- `encSig` is injective (on expressible pairs) -/
-theorem encSig_inj (r s r' s' : Nat) (h : SigOk r s) (e : encSig r s = encSig r' s') :
-    r = r' ∧ s = s' := by
+theorem encSig_inj (r s r' s' : Nat) (h : SigOk r s) (h' : SigOk r' s')
+    (e : encSig r s = encSig r' s') : r = r' ∧ s = s' := by
   have h1 := decSig_encSig r s h
-  rw [e] at h1
-  -- `encSig r' s'` is accepted, hence canonical for the pair it decodes to
-  have h2 := sigOk_of_decSig _ _ _ h1
-  have h3 := decSig_encSig r' s' (by
-    have := encSig_decSig _ _ _ h1
-    -- encSig r s = encSig r' s' so contents agree
-    have c := encTlv_inj _ _ _ this
-    sorry)
-  sorry
+  have h2 := decSig_encSig r' s' h'
+  rw [e, h2] at h1
+  simpa using h1.symm
+
+/-! ### rejected malformations -/
+
+/-- **trailing data after the SEQUENCE**: no accepted string has an accepted proper extension -/
+theorem decSig_append_none (b : Bytes) (p : Nat × Nat) (t : Bytes) (h : decSig b = some p)
+    (ht : t ≠ []) : decSig (b ++ t) = none := by
+  unfold decSig at h
+  split at h
+  · rename_i body h1
+    have h1' := decTlv_append _ _ _ _ t h1
+    rw [List.nil_append] at h1'
+    unfold decSig
+    rw [h1']
+    cases t with
+    | nil => exact absurd rfl ht
+    | cons x u => rfl
+  · cases h
+
+theorem decSig_encSig_append (r s : Nat) (t : Bytes) (h : SigOk r s) (ht : t ≠ []) :
+    decSig (encSig r s ++ t) = none :=
+  decSig_append_none _ _ t (decSig_encSig r s h) ht
+
+/-- **truncation**: no accepted string has an accepted proper prefix -/
+theorem decSig_take_none (b : Bytes) (p : Nat × Nat) (k : Nat) (h : decSig b = some p)
+    (hk : k < b.length) : decSig (b.take k) = none := by
+  cases hd : decSig (b.take k) with
+  | none => rfl
+  | some q =>
+    have hne : b.drop k ≠ [] := by
+      intro h0
+      have := congrArg List.length h0
+      simp only [List.length_drop, List.length_nil] at this
+      omega
+    have := decSig_append_none _ q _ hd hne
+    rw [List.take_append_drop, h] at this
+    cases this
+
+/-- **trailing data inside the SEQUENCE** (after the second INTEGER) -/
+theorem decSig_trailing_inside (r s : Nat) (t : Bytes) (ht : t ≠ [])
+    (hr : LenOk (intContent r).length) (hs : LenOk (intContent s).length)
+    (hl : LenOk (encInt r ++ encInt s ++ t).length) :
+    decSig (encTlv 0x30 (encInt r ++ encInt s ++ t)) = none := by
+  have h1 := decTlv_encTlv 0x30 (encInt r ++ encInt s ++ t) [] hl
+  have h2 := decInt_encInt r (encInt s ++ t) hr
+  have h3 := decInt_encInt s t hs
+  rw [List.append_nil] at h1
+  rw [← List.append_assoc] at h2
+  unfold decSig
+  simp only [h1, h2, h3]
+  cases t with
+  | nil => exact absurd rfl ht
+  | cons x u => rfl
+
+/-- if the first element of the SEQUENCE body does not parse as a canonical INTEGER, reject -/
+theorem decSig_none_of_first (b body rest : Bytes) (h1 : decTlv 0x30 b = some (body, rest))
+    (h2 : decInt body = none) : decSig b = none := by
+  unfold decSig
+  rw [h1]
+  cases rest with
+  | nil => simp only [h2]
+  | cons x u => rfl
+
+/-- if the second element of the SEQUENCE body does not parse as a canonical INTEGER, reject -/
+theorem decSig_none_of_second (b body rest b1 : Bytes) (r : Nat)
+    (h1 : decTlv 0x30 b = some (body, rest)) (h2 : decInt body = some (r, b1))
+    (h3 : decInt b1 = none) : decSig b = none := by
+  unfold decSig
+  rw [h1]
+  cases rest with
+  | nil => simp only [h2, h3]
+  | cons x u => rfl
+
+/-- an INTEGER TLV whose content is a canonical content with one more leading `00` is rejected -/
+theorem decInt_leading_zero (n : Nat) (t : Bytes) (h : LenOk (0 :: intContent n).length) :
+    decInt (encTlv 0x02 (0 :: intContent n) ++ t) = none := by
+  unfold decInt
+  rw [decTlv_encTlv _ _ _ h]
+  simp only [decIntContent_leading_zero]
+
+/-- an INTEGER TLV whose first content octet has the top bit set (negative) is rejected -/
+theorem decInt_negative (x : UInt8) (c t : Bytes) (hx : 128 ≤ x.toNat) (h : LenOk (x :: c).length) :
+    decInt (encTlv 0x02 (x :: c) ++ t) = none := by
+  unfold decInt
+  rw [decTlv_encTlv _ _ _ h]
+  simp only [decIntContent_negative x c hx]
+
+/-- an INTEGER TLV with empty content is rejected -/
+theorem decInt_empty (t : Bytes) : decInt (encTlv 0x02 [] ++ t) = none := by
+  unfold decInt
+  rw [decTlv_encTlv _ _ _ (by unfold LenOk; exact Nat.pow_pos (by omega))]
+  simp only [decIntContent_empty]
+
+/-- **superfluous leading zero in `r`** -/
+theorem decSig_leading_zero_r (r s : Nat) (hr : LenOk (0 :: intContent r).length)
+    (hl : LenOk (encTlv 0x02 (0 :: intContent r) ++ encInt s).length) :
+    decSig (encTlv 0x30 (encTlv 0x02 (0 :: intContent r) ++ encInt s)) = none := by
+  have h1 := decTlv_encTlv 0x30 _ [] hl
+  rw [List.append_nil] at h1
+  exact decSig_none_of_first _ _ _ h1 (decInt_leading_zero r _ hr)
+
+/-- **superfluous leading zero in `s`** -/
+theorem decSig_leading_zero_s (r s : Nat) (hr : LenOk (intContent r).length)
+    (hs : LenOk (0 :: intContent s).length)
+    (hl : LenOk (encInt r ++ encTlv 0x02 (0 :: intContent s)).length) :
+    decSig (encTlv 0x30 (encInt r ++ encTlv 0x02 (0 :: intContent s))) = none := by
+  have h1 := decTlv_encTlv 0x30 _ [] hl
+  rw [List.append_nil] at h1
+  have h3 := decInt_leading_zero s [] hs
+  rw [List.append_nil] at h3
+  exact decSig_none_of_second _ _ _ _ r h1 (decInt_encInt r _ hr) h3
+
+/-- a wrong outer tag (anything but `0x30`) is rejected -/
+theorem decSig_wrong_tag (x : UInt8) (b : Bytes) (h : x ≠ 0x30) : decSig (x :: b) = none := by
+  unfold decSig
+  rw [decTlv_wrong_tag _ _ _ h]
+
+/-- the empty string is rejected -/
+theorem decSig_nil : decSig [] = none := rfl
+
+/-- **non-minimal length octets**: a long-form length (`0x80 + k`) whose value is below 128, or
+    whose first octet is zero, is rejected; so are the indefinite form `0x80` and `0xff` -/
+theorem decLen_long_form_small (k : UInt8) (rest : Bytes) (hk : 128 ≤ k.toNat)
+    (h : toNatBE (rest.take (k.toNat - 128)) < 128) : decLen (k :: rest) = none := by
+  simp only [decLen]
+  have : ¬ k.toNat < 128 := by omega
+  simp only [this, h, ↓reduceIte]
+  repeat' split
+  all_goals rfl
+
+theorem decLen_leading_zero (k : UInt8) (rest : Bytes) (hk : 128 ≤ k.toNat)
+    (h : (rest.take (k.toNat - 128)).head? = some 0) : decLen (k :: rest) = none := by
+  simp only [decLen]
+  have : ¬ k.toNat < 128 := by omega
+  simp only [this, h, ↓reduceIte]
+  repeat' split
+  all_goals rfl
+
+theorem decLen_indefinite (rest : Bytes) : decLen (0x80 :: rest) = none := by
+  simp [decLen]
+
+theorem decLen_reserved (rest : Bytes) : decLen (0xff :: rest) = none := by
+  simp [decLen]
+
+/-- uniqueness of length octets: two accepted length prefixes of the same value are equal -/
+theorem decLen_unique (b b' : Bytes) (n : Nat) (t : Bytes) (h : decLen b = some (n, t))
+    (h' : decLen b' = some (n, t)) : b = b' := by
+  rw [encLen_decLen b n t h, encLen_decLen b' n t h']
+
+/-! ### discharging the bound -/
+
+theorem encLen_length_le (n : Nat) (h : LenOk n) : (encLen n).length ≤ 127 := by
+  have := natBytes_length_le 126 n h
+  unfold encLen
+  by_cases hn : n < 128 <;> simp only [hn, ↓reduceIte, List.length_cons, List.length_nil] <;> omega
+
+theorem pow125_facts : 256 ≤ 256 ^ 125 ∧ 256 ^ 126 = 256 ^ 125 * 256 := by
+  refine ⟨?_, by rw [← Nat.pow_succ]⟩
+  have : 256 ^ 1 ≤ 256 ^ 125 := Nat.pow_le_pow_right (by omega) (by omega)
+  rwa [Nat.pow_one] at this
+
+theorem sigOk_of_lt (N r s : Nat) (hN : N < 256 ^ 125) (hr : r < 256 ^ N) (hs : s < 256 ^ N) :
+    SigOk r s := by
+  have lr := intContent_length_le N r hr
+  have ls := intContent_length_le N s hs
+  obtain ⟨p1, p2⟩ := pow125_facts
+  have okr : LenOk (intContent r).length := by unfold LenOk; omega
+  have oks : LenOk (intContent s).length := by unfold LenOk; omega
+  have er := encLen_length_le _ okr
+  have es := encLen_length_le _ oks
+  refine ⟨okr, oks, ?_⟩
+  unfold LenOk encInt encTlv
+  simp only [List.length_cons, List.length_append]
+  omega
+
+/-- **round trip for all `r, s` below `256 ^ N`**, any `N < 256 ^ 125` -/
+theorem decSig_encSig_of_lt (N r s : Nat) (hN : N < 256 ^ 125) (hr : r < 256 ^ N)
+    (hs : s < 256 ^ N) : decSig (encSig r s) = some (r, s) :=
+  decSig_encSig r s (sigOk_of_lt N r s hN hr hs)
+
+/-- every ECDSA signature of the NIST curves (P-521 scalars are below `2 ^ 521 < 256 ^ 66`)
+    round-trips -/
+theorem decSig_encSig_p521 (r s : Nat) (hr : r < 256 ^ 66) (hs : s < 256 ^ 66) :
+    decSig (encSig r s) = some (r, s) := by
+  refine decSig_encSig_of_lt 66 r s ?_ hr hs
+  have := pow125_facts.1
+  omega
+
+theorem decInt_encInt_of_lt (N n : Nat) (t : Bytes) (hN : N < 256 ^ 125) (hn : n < 256 ^ N) :
+    decInt (encInt n ++ t) = some (n, t) :=
+  decInt_encInt n t (sigOk_of_lt N n n hN hn hn).1
+
+/-! ### hypotheses are satisfiable -/
+
+example : SigOk 0 0 := sigOk_of_lt 1 0 0 (by have := pow125_facts.1; omega) (by omega) (by omega)
+example : ∃ r s, SigOk r s ∧ decSig (encSig r s) = some (r, s) :=
+  ⟨1, 2, sigOk_of_lt 1 1 2 (by have := pow125_facts.1; omega) (by omega) (by omega),
+    decSig_encSig_of_lt 1 1 2 (by have := pow125_facts.1; omega) (by omega) (by omega)⟩
+example : ∃ b p, decSig b = some p := ⟨encSig 5 7, (5, 7),
+  decSig_encSig_of_lt 1 5 7 (by have := pow125_facts.1; omega) (by omega) (by omega)⟩
+example : LenOk (0 :: intContent 1).length ∧ LenOk (encTlv 0x02 (0 :: intContent 1) ++ encInt 1).length := by
+  have h := sigOk_of_lt 1 1 1 (by have := pow125_facts.1; omega) (by omega) (by omega)
+  have l := intContent_length_le 1 1 (by omega)
+  have e := encLen_length_le _ h.1
+  obtain ⟨p1, p2⟩ := pow125_facts
+  have e0 : LenOk (0 :: intContent 1).length := by
+    unfold LenOk; simp only [List.length_cons]; omega
+  have e1 := encLen_length_le _ e0
+  refine ⟨e0, ?_⟩
+  unfold LenOk encInt encTlv
+  simp only [List.length_cons, List.length_append] at e1 ⊢
+  omega
+example : ∃ (k : UInt8) (rest : Bytes), 128 ≤ k.toNat ∧ toNatBE (rest.take (k.toNat - 128)) < 128 :=
+  ⟨0x81, [0x7f], by decide, by decide⟩
+example : ∃ (k : UInt8) (rest : Bytes), 128 ≤ k.toNat ∧ (rest.take (k.toNat - 128)).head? = some 0 :=
+  ⟨0x82, [0x00, 0x80], by decide, by decide⟩
 
 end TinkVerif.DerList
+
+section AxiomAudit
+open TinkVerif.DerList
+#print axioms decSig_encSig
+#print axioms encSig_decSig
+#print axioms decSig_eq_some_iff
+#print axioms sigOk_of_decSig
+#print axioms encSig_inj
+#print axioms decSig_append_none
+#print axioms decSig_encSig_append
+#print axioms decSig_take_none
+#print axioms decSig_trailing_inside
+#print axioms decSig_none_of_first
+#print axioms decSig_none_of_second
+#print axioms decSig_leading_zero_r
+#print axioms decSig_leading_zero_s
+#print axioms decSig_wrong_tag
+#print axioms decSig_nil
+#print axioms decInt_encInt
+#print axioms encInt_decInt
+#print axioms encInt_inj
+#print axioms decInt_leading_zero
+#print axioms decInt_negative
+#print axioms decInt_empty
+#print axioms decIntContent_intContent
+#print axioms intContent_decIntContent
+#print axioms decIntContent_leading_zero
+#print axioms decIntContent_negative
+#print axioms intContent_inj
+#print axioms decLen_encLen
+#print axioms encLen_decLen
+#print axioms decLen_long_form_small
+#print axioms decLen_leading_zero
+#print axioms decLen_indefinite
+#print axioms decLen_reserved
+#print axioms decLen_unique
+#print axioms decTlv_encTlv
+#print axioms encTlv_decTlv
+#print axioms encTlv_inj
+#print axioms decTlv_wrong_tag
+#print axioms toNatBE_natBytes
+#print axioms natBytes_toNatBE
+#print axioms sigOk_of_lt
+#print axioms decSig_encSig_of_lt
+#print axioms decSig_encSig_p521
+#print axioms decInt_encInt_of_lt
+end AxiomAudit
